@@ -11,4 +11,67 @@ Definition agree (c : case) : bool :=
   | CResolve _ doc failed => Bool.eqb (resolve_fails doc) failed
   end.
 
-Definition holds (c : case) : bool := true.
+(** the generator's label of a single-fault mutation -> the rule it breaks *)
+Definition lbl_is (l : str) (x : String.string) : bool := str_eqb l (s x).
+Arguments lbl_is l x%string_scope.
+Definition label_rule (l : str) : option rule :=
+  if lbl_is l "reserved_name" then Some RReserved else if lbl_is l "dup_field" then Some RDupField
+  else if lbl_is l "dup_arg" then Some RDupArg else if lbl_is l "dup_enum_value" then Some RDupEnumValue
+  else if lbl_is l "dup_union_member" then Some RDupUnionMember else if lbl_is l "dup_input_field" then Some RDupInputField
+  else if lbl_is l "unknown_type" then Some RUnknownType else if lbl_is l "input_in_output" then Some RInputInOutput
+  else if lbl_is l "output_in_input" then Some ROutputInInput else if lbl_is l "not_interface" then Some RNotInterface
+  else if lbl_is l "implements_self" then Some RImplementsSelf else if lbl_is l "missing_transitive" then Some RMissingTransitive
+  else if lbl_is l "iface_field_missing" then Some RIfaceFieldMissing else if lbl_is l "iface_field_type" then Some RIfaceFieldType
+  else if lbl_is l "iface_arg_missing" then Some RIfaceArgMissing else if lbl_is l "iface_arg_type" then Some RIfaceArgType
+  else if lbl_is l "iface_extra_required_arg" then Some RIfaceExtraRequiredArg
+  else if lbl_is l "union_member_not_object" then Some RUnionMemberNotObject
+  else if lbl_is l "directive_unknown" then Some RDirectiveUnknown else if lbl_is l "directive_misplaced" then Some RDirectiveMisplaced
+  else if lbl_is l "directive_repeated" then Some RDirectiveRepeated else if lbl_is l "directive_args" then Some RDirectiveArgs
+  else if lbl_is l "directive_recursive" then Some RDirectiveRecursive
+  else None.
+
+Definition rule_eqb (a b : rule) : bool :=
+  match a, b with
+  | RReserved, RReserved | RDupField, RDupField | RDupArg, RDupArg | RDupEnumValue, RDupEnumValue
+  | RDupUnionMember, RDupUnionMember | RDupInputField, RDupInputField | RUnknownType, RUnknownType
+  | RInputInOutput, RInputInOutput | ROutputInInput, ROutputInInput | RNotInterface, RNotInterface
+  | RImplementsSelf, RImplementsSelf | RMissingTransitive, RMissingTransitive | RIfaceFieldMissing, RIfaceFieldMissing
+  | RIfaceFieldType, RIfaceFieldType | RIfaceArgMissing, RIfaceArgMissing | RIfaceArgType, RIfaceArgType
+  | RIfaceExtraRequiredArg, RIfaceExtraRequiredArg | RUnionMemberNotObject, RUnionMemberNotObject
+  | RDirectiveUnknown, RDirectiveUnknown | RDirectiveMisplaced, RDirectiveMisplaced
+  | RDirectiveRepeated, RDirectiveRepeated | RDirectiveArgs, RDirectiveArgs | RDirectiveRecursive, RDirectiveRecursive => true
+  | _, _ => false
+  end.
+
+Definition is_nil {A} (l : list A) : bool := match l with [] => true | _ => false end.
+
+(** same-kind duplicate type definitions in the unresolved document (spec: type names are unique) *)
+Fixpoint same_kind_dup (doc : tsdoc) : bool :=
+  match doc with
+  | [] => false
+  | TSType t :: r =>
+      existsb (fun d => match d with
+                        | TSType t' => tkind_eqb (typedef_kind t) (typedef_kind t') && str_eqb (tname t) (tname t')
+                        | _ => false end) r || same_kind_dup r
+  | _ :: r => same_kind_dup r
+  end.
+
+(** the property, read on the implementation's own output:
+    - a document valid under the specification gets no diagnostic;
+    - a document (with unique type and directive names) that breaks an implemented rule gets at least one;
+    - the generator's label agrees with the specification side (a `valid` case is [spec_valid], a case labelled
+      with a rule breaks that rule), so neither check can pass vacuously. *)
+Definition holds (c : case) : bool :=
+  match c with
+  | CCheck label doc errs =>
+      let sv := spec_valid doc in
+      let viol := if unique_names doc then violated doc else [] in
+      (if str_eqb label (s "valid") then sv else true) &&
+      (match label_rule label with Some r => existsb (rule_eqb r) viol | None => true end) &&
+      (if sv then is_nil errs else true) &&
+      (if is_nil viol then true else negb (is_nil errs))
+  | CResolve label doc failed =>
+      (if str_eqb label (s "valid") then false else true) &&
+      (if str_eqb label (s "dup_type") then same_kind_dup doc else true) &&
+      (if same_kind_dup doc then failed else true)
+  end.
